@@ -11,9 +11,16 @@
 EXTENDS Syntax, Literals
 
 Err == [k |-> "err"]
-OKR == [k |-> "ok", ws |-> <<>>, ps |-> <<>>]
+\* ws: witness occurrences, ps: parameter occurrences, cs: tracked call sites (C14)
+OKR == [k |-> "ok", ws |-> <<>>, ps |-> <<>>, cs |-> <<>>]
 IsErr(r) == r.k = "err"
-Both(r1, r2) == IF IsErr(r1) \/ IsErr(r2) THEN Err ELSE [k |-> "ok", ws |-> r1.ws \o r2.ws, ps |-> r1.ps \o r2.ps]
+Both(r1, r2) == IF IsErr(r1) \/ IsErr(r2) THEN Err
+                ELSE [k |-> "ok", ws |-> r1.ws \o r2.ws, ps |-> r1.ps \o r2.ps, cs |-> r1.cs \o r2.cs]
+\* a call that carries a debug symbol: its kind, its source text (for dbg!: the text of the argument),
+\* the type of the value it receives (used by dbg! / unwrap_left / unwrap_right to show the value)
+Site(kind, text, ty) == [kind |-> kind, text |-> text, ty |-> ty, fn |-> "main"]
+WithSite(r, site) == IF IsErr(r) THEN Err ELSE [r EXCEPT !.cs = <<site>> \o @]
+InFn(r, name) == IF IsErr(r) THEN Err ELSE [r EXCEPT !.cs = [i \in 1..Len(@) |-> [@[i] EXCEPT !.fn = name]]]
 
 Res(t, G) == Resolve(t, G.al)
 
@@ -84,17 +91,22 @@ AnCall(e, ty, G) ==
   IN CASE f.k = "jet" ->
             IF f.n \notin JetNames \/ f.n \in ReservedJets THEN Err
             ELSE LET sig == JetSig(f.n) IN
-                 IF n # Len(sig.args) \/ sig.ret # ty THEN Err ELSE AnSeq(args, sig.args, G)
+                 IF n # Len(sig.args) \/ sig.ret # ty THEN Err
+                 ELSE WithSite(AnSeq(args, sig.args, G), Site("jet", TokE(e), TUnit))
        [] f.k = "unwrap_left" ->
-            LET r == Res(f.t, G) IN IF r.k = "undef" \/ n # 1 THEN Err ELSE An(args[1], TEither(ty, r), G)
+            LET r == Res(f.t, G) IN
+            IF r.k = "undef" \/ n # 1 THEN Err
+            ELSE WithSite(An(args[1], TEither(ty, r), G), Site("unwrap_left", TokE(e), TEither(ty, r)))
        [] f.k = "unwrap_right" ->
-            LET l == Res(f.t, G) IN IF l.k = "undef" \/ n # 1 THEN Err ELSE An(args[1], TEither(l, ty), G)
+            LET l == Res(f.t, G) IN
+            IF l.k = "undef" \/ n # 1 THEN Err
+            ELSE WithSite(An(args[1], TEither(l, ty), G), Site("unwrap_right", TokE(e), TEither(l, ty)))
        [] f.k = "is_none" ->
             LET t == Res(f.t, G) IN IF t.k = "undef" \/ n # 1 \/ ty # TBool THEN Err ELSE An(args[1], TOpt(t), G)
-       [] f.k = "unwrap" -> IF n # 1 THEN Err ELSE An(args[1], TOpt(ty), G)
-       [] f.k = "assert" -> IF n # 1 \/ ty # TUnit THEN Err ELSE An(args[1], TBool, G)
-       [] f.k = "panic" -> IF n # 0 THEN Err ELSE OKR
-       [] f.k = "dbg" -> IF n # 1 THEN Err ELSE An(args[1], ty, G)
+       [] f.k = "unwrap" -> IF n # 1 THEN Err ELSE WithSite(An(args[1], TOpt(ty), G), Site("unwrap", TokE(e), TUnit))
+       [] f.k = "assert" -> IF n # 1 \/ ty # TUnit THEN Err ELSE WithSite(An(args[1], TBool, G), Site("assert", TokE(e), TUnit))
+       [] f.k = "panic" -> IF n # 0 THEN Err ELSE WithSite(OKR, Site("panic", TokE(e), TUnit))
+       [] f.k = "dbg" -> IF n # 1 THEN Err ELSE WithSite(An(args[1], ty, G), Site("dbg", TokE(args[1]), ty))
        [] f.k = "cast" ->
             LET s == Res(f.t, G) IN
             IF s.k = "undef" \/ n # 1 THEN Err ELSE IF ~CastOK(s, ty) THEN Err ELSE An(args[1], s, G)
@@ -137,8 +149,8 @@ An(e, ty, G) ==
     [] e.k = "dec" -> IF ty.k = "u" THEN (IF DecValue(e.s, ty.n) = REJECT THEN Err ELSE OKR) ELSE Err
     [] e.k = "bin" -> IF ty.k = "u" THEN (IF BinValue(e.s, ty.n) = REJECT THEN Err ELSE OKR) ELSE Err
     [] e.k = "hex" -> IF HexValue(e.s, ty).k = "reject" THEN Err ELSE OKR
-    [] e.k = "wit" -> IF G.inMain THEN [k |-> "ok", ws |-> <<<<e.n, ty>>>>, ps |-> <<>>] ELSE Err
-    [] e.k = "param" -> [k |-> "ok", ws |-> <<>>, ps |-> <<<<e.n, ty>>>>]
+    [] e.k = "wit" -> IF G.inMain THEN [k |-> "ok", ws |-> <<<<e.n, ty>>>>, ps |-> <<>>, cs |-> <<>>] ELSE Err
+    [] e.k = "param" -> [k |-> "ok", ws |-> <<>>, ps |-> <<<<e.n, ty>>>>, cs |-> <<>>]
     [] e.k = "var" -> IF e.x \in DOMAIN G.vars THEN (IF G.vars[e.x] = ty THEN OKR ELSE Err) ELSE Err
     [] e.k = "paren" -> An(e.e, ty, G)
     [] e.k = "tuple" -> IF ty.k = "tup" THEN (IF Len(ty.es) = Len(e.es) THEN AnSeq(e.es, ty.es, G) ELSE Err) ELSE Err
@@ -186,7 +198,7 @@ AnItems(items, G, acc, nmain) ==
                               ELSE LET fn == [params |-> [i \in 1..Len(pts) |-> [x |-> it.params[i].x, t |-> pts[i]]],
                                               ret |-> rt, body |-> it.body, al |-> G.al, fns |-> G.fns]
                                    IN AnItems(Tail(items), [G EXCEPT !.fns = Extend(G.fns, <<<<it.name, fn>>>>)],
-                                              Both(acc, r), nmain)
+                                              Both(acc, InFn(r, it.name)), nmain)
 
 \* all occurrences of one name carry one type
 Consistent(ps) == \A i, j \in 1..Len(ps) : ps[i][1] = ps[j][1] => ps[i][2] = ps[j][2]
@@ -198,9 +210,30 @@ Analyze(items) ==
   ELSE IF a.nmain # 1 THEN Err                                                 \* S13
   ELSE IF ~NoDup([i \in 1..Len(a.r.ws) |-> a.r.ws[i][1]]) THEN Err            \* S14
   ELSE IF ~Consistent(a.r.ps) THEN Err                                         \* S15
-  ELSE [k |-> "ok", wits |-> Extend(EmptyFn, a.r.ws), params |-> Extend(EmptyFn, a.r.ps), G |-> a.G]
+  ELSE [k |-> "ok", wits |-> Extend(EmptyFn, a.r.ws), params |-> Extend(EmptyFn, a.r.ps), G |-> a.G, sites |-> a.r.cs]
 
 WellFormed(items) == ~IsErr(Analyze(items))
+
+\* ---- which tracked call sites end up in the compiled program (functions are inlined) ------------
+RECURSIVE FnsCalled(_)
+\* names of custom functions called (also through fold / for_while) in an expression
+FnsCalled(e) ==
+  CASE e.k \in {"bool", "dec", "bin", "hex", "wit", "param", "var", "none"} -> {}
+    [] e.k \in {"paren", "left", "right", "some"} -> FnsCalled(e.e)
+    [] e.k \in {"tuple", "array", "list"} -> UNION {FnsCalled(e.es[i]) : i \in 1..Len(e.es)}
+    [] e.k = "call" -> (IF e.f.k \in {"fn", "fold", "for_while"} THEN {e.f.n} ELSE {})
+                       \cup UNION {FnsCalled(e.args[i]) : i \in 1..Len(e.args)}
+    [] e.k = "match" -> FnsCalled(e.s) \cup FnsCalled(e.arms[1].e) \cup FnsCalled(e.arms[2].e)
+    [] e.k = "block" -> UNION {FnsCalled(e.ss[i].e) : i \in 1..Len(e.ss)} \cup UNION {FnsCalled(e.fin[i]) : i \in 1..Len(e.fin)}
+RECURSIVE Closure(_, _)
+Closure(names, fns) ==
+  LET more == names \cup UNION {FnsCalled(fns[n].body) : n \in names \cap DOMAIN fns}
+  IN IF more = names THEN names ELSE Closure(more, fns)
+\* sites of main and of every function reachable from main
+\* (m = MainCtx(items, G0))
+ReachableSites(m, an) ==
+  LET live == Closure(FnsCalled(m.body), m.G.fns) \cup {"main"}
+  IN SelectSeq(an.sites, LAMBDA s : s.fn \in live)
 
 \* the definitions visible to main (everything defined before it)
 RECURSIVE MainCtx(_, _)
